@@ -14,6 +14,15 @@ func init() {
 		var cell value = structure{args[0], args[1], args[2]}
 		return iface{t: types.NewPointer(t), v: &cell}
 	})
+	// directio.AlignedBlock: alignment is irrelevant for interpreter slices
+	reg("github.com/ncw/directio.AlignedBlock", func(m *Machine, fr *frame, fn *ssa.Function, args []value) value {
+		n := int(asInt64(args[0]))
+		s := make([]value, n)
+		for i := range s {
+			s[i] = uint8(0)
+		}
+		return s
+	})
 	// contextName is only used for String()
 	reg("context.contextName", func(m *Machine, fr *frame, fn *ssa.Function, args []value) value { return "ctx" })
 }
